@@ -849,6 +849,50 @@ func shortFn(f *ssa.Function) string {
 	return s
 }
 
+// edgeSearch explores paths from `from` (nil: function entry of f) and reports whether target is reachable when
+// the CFG edges selected by cut are removed and paths stop at instructions selected by stop.
+// cut(ifInstr, atom-of-the-edge): called for both out-edges of every If with the normalised condition of that edge.
+func edgeSearch(f *ssa.Function, from ssa.Instruction, cut func(a Atom) bool, stop func(ssa.Instruction) bool, target func(ssa.Instruction) bool) ssa.Instruction {
+	seenBlk := map[*ssa.BasicBlock]bool{}
+	var walk func(b *ssa.BasicBlock, idx int) ssa.Instruction
+	walk = func(b *ssa.BasicBlock, idx int) ssa.Instruction {
+		for k := idx; k < len(b.Instrs); k++ {
+			in := b.Instrs[k]
+			if stop != nil && stop(in) {
+				return nil
+			}
+			if target(in) {
+				return in
+			}
+			if isNoReturnCall(in) {
+				return nil
+			}
+		}
+		var iff *ssa.If
+		if len(b.Instrs) > 0 {
+			iff, _ = b.Instrs[len(b.Instrs)-1].(*ssa.If)
+		}
+		for k, s := range b.Succs {
+			if iff != nil && cut != nil && len(b.Succs) == 2 && cut(NormCond(iff.Cond, k == 0)) {
+				continue
+			}
+			if seenBlk[s] || isRecoverBlock(s) {
+				continue
+			}
+			seenBlk[s] = true
+			if r := walk(s, 0); r != nil {
+				return r
+			}
+		}
+		return nil
+	}
+	if from == nil {
+		seenBlk[f.Blocks[0]] = true
+		return walk(f.Blocks[0], 0)
+	}
+	return walk(from.Block(), instrIndex(from)+1)
+}
+
 // onPathBetween returns an instruction satisfying pred that lies on some path from a (exclusive) to b (exclusive).
 func onPathBetween(a, b ssa.Instruction, pred func(ssa.Instruction) bool) ssa.Instruction {
 	var hits []ssa.Instruction
